@@ -1,5 +1,6 @@
 """Discharging obligations: z3 first, cvc5 (CLI) for what z3 leaves unknown."""
 import os
+import sys
 import subprocess
 import tempfile
 import time
@@ -212,6 +213,9 @@ def _run_strategy(name, hyps, goal, ematch, decisive, timeout_ms):
             if 'lambda' in smt2:
                 return dict(verdict='unknown')
             v = run_cvc5(smt2, max(2, timeout_ms // 1000))
+            if v.startswith('(error') or v.startswith('error'):
+                # a back end that cannot read the query decides nothing; say so instead of looking like a timeout
+                sys.stderr.write('WARNING: cvc5 rejected a query: %s\n' % v[:200])
             return dict(verdict='proved' if v == 'unsat' else 'unknown')
         except Exception:
             return dict(verdict='unknown')
